@@ -72,6 +72,8 @@ def build_app(asgi=False, flaky=False, variant=0):
     class Mw:
         def process_request(self, req, resp):
             req.context.tok = req.get_header('X-Tok')
+            # applications do annotate the per-request objects falcon hands them
+            req.params['stamp'] = req.get_header('X-Tok')
 
         def process_response(self, req, resp, resource, req_succeeded):
             resp.set_header('X-Echo', str(getattr(req.context, 'tok', None)))
@@ -79,12 +81,14 @@ def build_app(asgi=False, flaky=False, variant=0):
     class AMw:
         async def process_request(self, req, resp):
             req.context.tok = req.get_header('X-Tok')
+            req.params['stamp'] = req.get_header('X-Tok')
 
         async def process_response(self, req, resp, resource, req_succeeded):
             resp.set_header('X-Echo', str(getattr(req.context, 'tok', None)))
 
     def common(req, route, **kw):
         d = {'route': route, 'q': req.get_param('q'), 'qs': req.get_param_as_list('l'), 'h': req.get_header('X-Tok'),
+             'params': sorted((k, str(v)) for k, v in req.params.items()),
              'ctx': req.context.tok, 'path': req.path, 'accepts_json': req.client_accepts_json,
              'prefers': req.client_prefers(['text/plain', 'application/json'])}
         d.update({k: str(v) for k, v in kw.items()})
@@ -113,6 +117,14 @@ def build_app(asgi=False, flaky=False, variant=0):
         class Fl:
             def on_get(self, req, resp, v):
                 resp.media = common(req, 'flaky', v=v)
+
+        class Form:
+            def on_post(self, req, resp):
+                form = req.get_media(default_when_empty={})
+                seen = sorted((k, str(v)) for k, v in form.items()) if isinstance(form, dict) else repr(form)
+                if isinstance(form, dict):
+                    form['owner'] = req.get_header('X-Tok')      # the app stamps the document it was given
+                resp.media = common(req, 'form', form=seen)
         app = falcon.App(middleware=[Mw()])
     else:
         class Items:
@@ -143,11 +155,22 @@ def build_app(asgi=False, flaky=False, variant=0):
         class Fl:
             async def on_get(self, req, resp, v):
                 resp.media = common(req, 'flaky', v=v)
+
+        class Form:
+            async def on_post(self, req, resp):
+                form = await req.get_media(default_when_empty={})
+                seen = sorted((k, str(v)) for k, v in form.items()) if isinstance(form, dict) else repr(form)
+                if isinstance(form, dict):
+                    form['owner'] = req.get_header('X-Tok')
+                resp.media = common(req, 'form', form=seen)
         app = falcon.asgi.App(middleware=[AMw()])
     app.add_route('/items/{id:int}/{name}', Items())
     app.add_route('/users/{uid:uuid}', Users())
     app.add_route('/files/{p:path}', Files())
     app.add_route('/err/{code:int(3)}', Err())
+    app.add_route('/form', Form())
+    if variant >= 2 and not asgi:
+        app.req_options.auto_parse_form_urlencoded = True
     if variant % 2:
         app.add_route('/items/{id:int}/{name}/x-{tail}', Items())
         app.add_route('/zz/{a}-{b}', Files())
@@ -159,13 +182,13 @@ def build_app(asgi=False, flaky=False, variant=0):
 
 def gen_requests(rng, n, with_flaky=False):
     reqs = []
-    kinds = ['items', 'users', 'files', 'err', 'items', 'miss']
+    kinds = ['items', 'users', 'files', 'err', 'items', 'miss', 'form', 'form']
     if with_flaky:
         kinds += ['flaky', 'flaky']
     for i in range(n):
         tok = 'tok%d-%04x' % (i, rng.randrange(1 << 16))
         kind = rng.choice(kinds)
-        q = 'q=%s&l=a%d&l=b%d' % (tok, i, i)
+        q = rng.choice(['q=%s&l=a%d&l=b%d' % (tok, i, i)] * 2 + ['', 'q=same&l=x'])
         headers = [('X-Tok', tok), ('Accept', rng.choice(['application/json', '*/*', 'text/plain;q=0.5, application/json']))]
         body = b''
         method = 'GET'
@@ -180,6 +203,11 @@ def gen_requests(rng, n, with_flaky=False):
             path = '/files/a/%s/b' % tok
         elif kind == 'err':
             path = '/err/%03d' % rng.randrange(1000)
+        elif kind == 'form':
+            method = 'POST'
+            path = '/form'
+            body = rng.choice(['a=%s&b=%d' % (tok, i), 'a=same&b=1', 'a=same&b=1']).encode()
+            headers.append(('Content-Type', 'application/x-www-form-urlencoded'))
         elif kind == 'flaky':
             path = '/fl/%s' % tok
         else:
@@ -198,11 +226,22 @@ def wsgi_call(app, r):
     return (res.status, res.header('x-echo'), res.header('content-type'), res.body, tuple(res.problems))
 
 
-def serial_vectors(build, reqs, call):
-    """Acceptable outcomes: the requests run one at a time, in every order, each order on a fresh app."""
+def serial_vectors(build, reqs, call, isolated=True):
+    """Acceptable outcomes.  isolated: every request alone on its own fresh app (the generated apps keep no
+    state of their own, so any order of one-at-a-time processing must give exactly these responses, and a request
+    that sees anything of another request differs).  Otherwise (the app with a converter that fails once):
+    the requests run one at a time, in every order, each order on a fresh app."""
     out = set()
     TS.CoopLock.serial_mode = True
     try:
+        if isolated:
+            vec = []
+            for r in reqs:
+                try:
+                    vec.append(call(build(), r))
+                except TS.Deadlock as ex:
+                    raise SerialDeadlock(str(ex), [r['path']], r['path'])
+            return {tuple(vec)}
         for perm in itertools.permutations(range(len(reqs))):
             app = build()
             vec = [None] * len(reqs)
@@ -272,11 +311,11 @@ def coverage_marks(rec, sched):
             inside[w['idx']] = w['where'][0]
 
 
-def run_controlled(rec, sched, build, reqs, chooser, phase, accept=None):
+def run_controlled(rec, sched, build, reqs, chooser, phase, accept=None, ref_build=None, isolated=True):
     app = build()
     fns = [(lambda r=r: wsgi_call(app, r)) for r in reqs]
     if accept is None:
-        accept = safe_serial(rec, build, reqs, wsgi_call)
+        accept = safe_serial(rec, ref_build or build, reqs, wsgi_call, isolated)
         if accept is None:
             return None
     wit = {'phase': phase, 'requests': [dict(r, body=r['body'].decode()) for r in reqs]}
@@ -403,9 +442,9 @@ def run_asgi_schedule(rec, st, build, reqs, pick, accept):
 
 # ------------------------------------------------------------------ run
 
-def safe_serial(rec, build, reqs, call):
+def safe_serial(rec, build, reqs, call, isolated=True):
     try:
-        return serial_vectors(build, reqs, call)
+        return serial_vectors(build, reqs, call, isolated)
     except SerialDeadlock as ex:
         rec.violation('request-never-completes-even-serially',
                       {'detail': ex.args[0], 'order': ex.args[1], 'stuck_request': ex.args[2]})
@@ -439,7 +478,7 @@ def run(rec):
 
             def build(flaky=flaky, variant=variant):
                 return build_app(False, flaky, variant)
-            accept = safe_serial(rec, build, reqs, wsgi_call)
+            accept = safe_serial(rec, build, reqs, wsgi_call, isolated=not flaky)
             if accept is None:
                 continue
             cap = 800 if quick else 12000
@@ -471,15 +510,15 @@ def run(rec):
         while rec.elapsed() - t0 < share or nb < 10:
             n = rng.choice([2, 2, 3])
             flaky = rng.random() < 0.25
-            variant = rng.randrange(2)
+            variant = rng.randrange(4)
             reqs = gen_requests(rng, n, with_flaky=flaky)
 
             def build(flaky=flaky, variant=variant):
                 return build_app(False, flaky, variant)
-            fresh = rng.random() < 0.7
+            fresh = rng.random() < 0.7 or flaky
             if fresh:
                 ch = RandomChooser(rng, rng.choice([0.02, 0.1, 0.3]))
-                run_controlled(rec, sched, build, reqs, ch, 'B')
+                run_controlled(rec, sched, build, reqs, ch, 'B', isolated=not flaky)
             else:
                 # warm app: one request first, then the concurrent set (router already compiled)
                 warm = gen_requests(rng, 1)[0]
@@ -489,7 +528,8 @@ def run(rec):
                     wsgi_call(app, warm)
                     return app
                 ch = RandomChooser(rng, rng.choice([0.05, 0.3]))
-                run_controlled(rec, sched, build_warm, reqs, ch, 'B')
+                rec.count('cls.warm_app')
+                run_controlled(rec, sched, build_warm, reqs, ch, 'B', ref_build=build, isolated=not flaky)
             rec.case(('B', tuple(r['path'] for r in reqs), tuple(ch.choices[:300])))
             rec.seen('schedules', ('B', tuple(r['path'] for r in reqs), tuple(ch.choices[:300])))
             nb += 1
@@ -505,11 +545,10 @@ def run(rec):
         nd = 0
         while rec.elapsed() - t0 < share or nd < 20:
             n = rng.choice([2, 3, 8, 16])
-            variant = rng.randrange(2)
+            variant = rng.randrange(4)
             reqs = gen_requests(rng, n)
             app = build_app(False, False, variant)
-            ref_app = build_app(False, False, variant)
-            expect = tuple(wsgi_call(ref_app, r) for r in reqs)     # stateless app: order does not matter
+            expect = tuple(wsgi_call(build_app(False, False, variant), r) for r in reqs)   # each alone on a fresh app
             out = [None] * n
             barrier = threading.Barrier(n)
 
@@ -566,7 +605,7 @@ def run(rec):
     while rec.elapsed() - t0 < share or nc < 10:
         n = rng.choice([2, 3, 3])
         rq = gen_requests(rng, n)
-        acc = {tuple(asgi_serial_call(abuild(), r) for r in rq)} if True else None
+        acc = {tuple(asgi_serial_call(abuild(), r) for r in rq)}
         ch = run_asgi_schedule(rec, st, abuild, rq, lambda k: rng.randrange(k), acc)
         rec.case(('Cr', tuple(r['path'] for r in rq), tuple(ch)))
         nc += 1
